@@ -771,13 +771,28 @@ func evalUpdateExpression(node *UpdateExpression, env *Environment) Object {
 		return newError(node.TokenLiteral() + " expression must have at least one action")
 	}
 
-	for _, act := range node.Expressions {
+	// the right-hand side of every SET action reads the item as it was before the update,
+	// whatever the order of the actions: evaluate them all first, then apply the actions
+	values := make([]Object, len(node.Expressions))
+
+	for i, act := range node.Expressions {
 		action, ok := act.(*ActionExpression)
 		if !ok {
 			return newError("invalid infix action")
 		}
 
-		result := evalAction(action, env)
+		if action.Token.Type != SET || action.Right == nil {
+			continue
+		}
+
+		values[i] = EvalUpdate(action.Right, env)
+		if isError(values[i]) {
+			return values[i]
+		}
+	}
+
+	for i, act := range node.Expressions {
+		result := evalAction(act.(*ActionExpression), values[i], env)
 		if isError(result) {
 			return result
 		}
@@ -788,12 +803,7 @@ func evalUpdateExpression(node *UpdateExpression, env *Environment) Object {
 	return UNDEFINED
 }
 
-func evalActionSet(node *ActionExpression, env *Environment) Object {
-	val := EvalUpdate(node.Right, env)
-	if isError(val) {
-		return val
-	}
-
+func evalActionSet(node *ActionExpression, val Object, env *Environment) Object {
 	id, ok := node.Left.(*Identifier)
 	if ok {
 		// We need to validate left hand side is not a keyword
@@ -924,10 +934,10 @@ func evalActionRemove(node *ActionExpression, env *Environment) Object {
 	return newError("invalid remove to: %s", node.String())
 }
 
-func evalAction(node *ActionExpression, env *Environment) Object {
+func evalAction(node *ActionExpression, setValue Object, env *Environment) Object {
 	switch node.Token.Type {
 	case SET:
-		return evalActionSet(node, env)
+		return evalActionSet(node, setValue, env)
 	case ADD:
 		return evalActionAdd(node, env)
 	case REMOVE:
